@@ -101,6 +101,34 @@ def _standin(rep, tier, seed):
             bound = w1 / (4 * s * math.sqrt(math.pi)) * math.sqrt(2)
             if d > bound + 4 * math.sqrt(acc) + 1e-9 * bound:
                 rep.violation("stability bound fails: heat %r > sqrt2*W1/(4 sigma sqrt(pi)) = %r" % (d, bound), "heat:stability", {"input": inp, "observed": d, "expected": "<= %r" % bound})
+    # the same arrays at every sigma, in sequence (results must not depend on earlier calls), and large exact translations
+    from persim import heat as _heat_fn
+    for it in range(12 if tier == "quick" else 300):
+        F = np.array([[rng.randint(0, 8) / 4.0, 0] for _ in range(rng.randint(1, 4))])
+        F[:, 1] = F[:, 0] + np.array([rng.randint(1, 8) / 4.0 for _ in range(len(F))])
+        G = np.array([[rng.randint(0, 8) / 4.0, 0] for _ in range(rng.randint(1, 4))])
+        G[:, 1] = G[:, 0] + np.array([rng.randint(1, 8) / 4.0 for _ in range(len(G))])
+        for s in sigmas:
+            with warnings.catch_warnings():
+                warnings.simplefilter("ignore")
+                d = float(_heat_fn(F, G, sigma=s))
+            evals += 1
+            want_sq = _sq_oracle(F.tolist(), G.tolist(), s)
+            acc = 64 * 2.3e-16 * (len(F) + len(G) + 1) ** 2 / (8 * math.pi * s)
+            if d != d or abs(d * d - max(want_sq, 0.0)) > acc + 1e-9 * abs(want_sq):
+                rep.violation("heat(F, G, sigma=%s) = %r, oracle squared %r, when the same arrays are used with several sigmas in sequence (F=%s, G=%s)" % (s, d, want_sq, F.tolist(), G.tolist()),
+                              "heat:value-depends-on-earlier-calls", {"input": {"dgm1": F.tolist(), "dgm2": G.tolist(), "sigma": s, "sigmas_in_order": sigmas}, "observed": d, "expected_squared": want_sq})
+                break
+        base = float(_heat_fn(F, G, sigma=0.4))
+        for t in (2.0 ** 20, 2.0 ** 23, 2.0 ** 26):
+            with warnings.catch_warnings():
+                warnings.simplefilter("ignore")
+                dt = float(_heat_fn(F + t, G + t, sigma=0.4))
+            evals += 1
+            if dt != dt or abs(dt - base) > 1e-9 * max(1.0, base):
+                rep.violation("heat is not invariant under the exact diagonal translation by %r: %r vs %r (F=%s, G=%s)" % (t, dt, base, F.tolist(), G.tolist()), "heat:shift",
+                              {"input": {"dgm1": F.tolist(), "dgm2": G.tolist(), "sigma": 0.4, "shift": t}, "observed": [base, dt]})
+                break
     rep.bounded("heat-laws", "random diagrams of 0..6 points, sigma in %s, scales 1e-2..1e2, reorderings" % sigmas, evals, len(distinct),
                 "distinct = (|F|,|G|,sigma,scale); NaN-freedom, value vs fsum oracle (squared), zero on reordering, symmetry, triangle, diagonal points, shift, stability",
                 samples)
